@@ -1065,8 +1065,15 @@ func (r *pyRange) Operator(operator Operator, operand pyObject) pyObject {
 	panic(fmt.Sprintf("operator %s not implemented on type range", operator))
 }
 
+// Len returns the number of items in the range, as Python defines it: the steps that fit between start and
+// stop, rounded up, for either sign of the step (and never fewer than zero).
 func (r *pyRange) Len() int {
-	return int((r.Stop - r.Start) / r.Step)
+	if r.Step > 0 && r.Stop > r.Start {
+		return int((r.Stop - r.Start + r.Step - 1) / r.Step)
+	} else if r.Step < 0 && r.Start > r.Stop {
+		return int((r.Start - r.Stop - r.Step - 1) / -r.Step)
+	}
+	return 0
 }
 
 func (r *pyRange) Item(index int) pyObject {
@@ -1075,7 +1082,7 @@ func (r *pyRange) Item(index int) pyObject {
 
 func (r *pyRange) Iter() iter.Seq[pyObject] {
 	return func(yield func(pyObject) bool) {
-		for i := r.Start; i < r.Stop; i += r.Step {
+		for i, n := r.Start, r.Len(); n > 0; i, n = i+r.Step, n-1 {
 			if !yield(i) {
 				break
 			}
@@ -1089,7 +1096,7 @@ func (r *pyRange) MarshalJSON() ([]byte, error) {
 
 func (r *pyRange) toList(extraCapacity int) pyList {
 	ret := make(pyList, 0, r.Len()+extraCapacity)
-	for i := r.Start; i < r.Stop; i += r.Step {
+	for i, n := r.Start, r.Len(); n > 0; i, n = i+r.Step, n-1 {
 		ret = append(ret, i)
 	}
 	return ret
